@@ -221,6 +221,46 @@ func runC13(c *Ctx) {
 			c.R.Check(!bad, r7, "ReconfigureProcessor: waits for the node without a deadline of its own", c.Pos(call.Pos()), "caller's context", "ReconfigureProcessor bounds its wait for ProcessorNode.Reconfigure with context.WithTimeout/WithDeadline: when the bound expires while the node is already opening the new processor, the caller gets an error and rolls the store back while the node completes the swap", true)
 		}
 	}
+	r8 := c.R.Rule("R8", "K3 what 'not live-reconfigurable' means: lifecycle.ReconfigureProcessor reports ErrProcessorNotLiveReconfigurable only when the pipeline has no such processor node (never for a build or swap failure, which must reach the caller as a failure so the stored config is rolled back)", 1)
+	if fn := c.SSA(r8, pLife, "(*Service).ReconfigureProcessor"); fn != nil {
+		sentinel := c.W.LookupObj(pLife, "ErrProcessorNotLiveReconfigurable")
+		n := 0
+		for _, ret := range kit.Returns(fn) {
+			v := kit.RetVal(ret, len(ret.Results)-1)
+			if kit.IsNilConst(v) || !kit.DerivesFrom(v, func(x ssa.Value) bool { return isGlobalLoad(x, sentinel) }) {
+				continue
+			}
+			n++
+			// behind the edge on which the node lookup found nothing
+			g := kit.NewGates()
+			for _, b := range fn.Blocks {
+				for _, in := range b.Instrs {
+					if v2, ok := in.(ssa.Value); ok {
+						if pt, ok := v2.Type().(*types.Pointer); ok {
+							if nt, ok := pt.Elem().(*types.Named); ok && nt.Obj().Name() == "ProcessorNode" {
+								g.AddEdges(kit.NilEdges(v2, true), "node == nil")
+							}
+						}
+					}
+				}
+			}
+			c.Dominated(r8, "ReconfigureProcessor: ErrProcessorNotLiveReconfigurable only when there is no such node", []ssa.Instruction{ret}, g, "the node == nil edge")
+		}
+		c.R.Check(n >= 1, r8, "ReconfigureProcessor: reports a missing node as not live-reconfigurable", c.Pos(fn.Pos()), "ok", "no return of ErrProcessorNotLiveReconfigurable found", false)
+	}
+	r9 := c.R.Rule("R9", "K4 a staged request is always seen: every exit of ProcessorNode.applyPendingSwap has looked at the pending slot under swapMu (no shortcut in front of the lock can make it skip a request that was staged concurrently)", 1)
+	if fn := c.SSA(r9, pStream, "(*ProcessorNode).applyPendingSwap"); fn != nil && len(fn.Blocks) > 0 {
+		pendF := c.Field(r9, pStream, "ProcessorNode", "pending")
+		ls := kit.Locksets(fn, c.W.StdLockSpec(), nil)
+		g := kit.NewGates()
+		for _, l := range kit.FieldLoads(fn, pendF) {
+			if in, ok := l.(ssa.Instruction); ok && containsLock(ls[in], "recv.swapMu") {
+				g.AddInstr(in, "pending read under swapMu")
+			}
+		}
+		ok, _ := kit.AllExitsFromEdge(kit.Edge{To: fn.Blocks[0]}, false, kit.ExitSpec{Gates: g})
+		c.R.Check(ok && !g.Empty(), r9, "applyPendingSwap: every exit has read the pending slot under swapMu", c.Pos(fn.Pos()), "ok", "applyPendingSwap can return without reading the pending slot under swapMu (a flag or other shortcut in front of the lock): a request staged while a swap is in flight is never applied and its caller blocks", true)
+	}
 	r6 := c.R.Rule("R6", "K1/K3 live-swap pairing: closed callers; the store is updated before any node is swapped; a rollback restores the store before re-swapping and always restores it", 8)
 	c.WhoMayRef(r6, "processor.Service.UpdateWhileRunning", c.Fam(c.Fn(r6, pProc, "(*Service).UpdateWhileRunning")), []string{pProv + ".(updateProcessorAction).update"})
 	reconf := c.Fam(c.Fn(r6, pProv, "LifecycleService.ReconfigureProcessor"))
